@@ -280,17 +280,70 @@ def judge_vertex_copy(rec, cls, new, pts, cells, exp, keep_cells, vvals, cvals, 
         rec.check("C13.copy-geom", gotc == wc, op="copy_from_extent", cls=cls, attr="cells", detail=f"copied cells connect {gotc} expected {wc}")
 
 
-def do_hole(case, rec, rng, ws, dims, inverse, copy):
+def hole_state(hole):
+    """What a user sees of a hole: collar, surveys, and each data entry with its depths."""
+    out = {"collar": [float(hole.collar[a]) for a in ("x", "y", "z")], "surveys": np.asarray(hole.surveys, dtype=float).round(6).tolist(), "data": {}}
+    for c in hole.children:
+        v = getattr(c, "values", None)
+        if isinstance(v, np.ndarray) and v.dtype.kind == "f":
+            out["data"][c.name] = [None if x != x else round(float(x), 6) for x in v.tolist()]
+    return out
+
+
+def make_hole(ws, parent, rng, name, collar, with_data):
     from geoh5py.objects import Drillhole
 
+    az, dip = float(rng.choice([0, 45, 90, 200])), float(rng.choice([-90, -60, -45, -20]))
+    hole = Drillhole.create(ws, parent=parent, collar=list(collar), surveys=np.array([[0.0, az, dip], [rng.choice([10.0, 40.0]), az, dip]]), name=name)
+    if with_data in ("depth", "both"):
+        hole.add_data({"a" + name: {"depth": np.array([2.0, 5.0, 8.0]), "values": np.array([f_tag(1), f_tag(2), f_tag(3)])}})
+    if with_data in ("interval", "both"):
+        hole.add_data({"i" + name: {"from-to": np.array([[1.0, 2.0], [4.0, 6.0]]), "values": np.array([f_tag(11), f_tag(12)])}})
+    return hole
+
+
+def judge_hole_copy(rec, hole, new, before, collar, box, dims, inverse, style, via):
+    """A hole is selected by its collar, as a whole: the copy is the hole with all it carries, or nothing."""
+    attr = f"{via}:{dims}d{':inverse' if inverse else ''}"
+    hit = inside(collar, box, dims)
+    exp = hit != inverse
+    rec.check("C13.source-unchanged", hole_state(hole) == before, op="copy_from_extent", cls="Drillhole", attr=attr, detail=f"source hole changed by the selection: {hole_state(hole)} before {before}")
+    if new is None:
+        rec.check("C13.none", not (hit and exp), op="copy_from_extent", cls="Drillhole", attr=attr, detail=f"nothing returned although the collar {collar} lies in the box {box} ({style})")
+        return
+    rec.check("C13.copy-geom", exp, op="copy_from_extent", cls="Drillhole", attr=attr + ":unselected", detail=f"a hole with collar {collar} was returned for box {box} inverse={inverse} ({style})")
+    if exp:
+        got = hole_state(new)
+        rec.check("C13.copy-geom", (got["collar"], got["surveys"]) == (before["collar"], before["surveys"]), op="copy_from_extent", cls="Drillhole", attr=attr + ":path", detail=f"copied hole has collar/surveys {got['collar']} {got['surveys']} expected {before['collar']} {before['surveys']}")
+        rec.check("C13.copy-data", got["data"] == before["data"], op="copy_from_extent", cls="Drillhole", attr=attr + ":data", detail=f"copied hole carries {got['data']} expected {before['data']}")
+
+
+def do_hole(case, rec, rng, ws, dims, inverse, copy):
+    from geoh5py.groups import ContainerGroup, DrillholeGroup
+
+    via = rng.choice(["plain", "plain", "concat"])
+    with_data = rng.choice(["none", "depth", "interval", "both"])
     collar = (float(rng.randint(0, 5)), float(rng.randint(0, 5)), float(rng.randint(0, 3)))
-    hole = Drillhole.create(ws, collar=list(collar), surveys=np.array([[0.0, 0.0, -90.0], [30.0, 20.0, -70.0]]), name="h")
-    hole.add_data({"a": {"depth": np.array([5.0, 25.0]), "values": np.array([1.0, 2.0])}})
-    box, style = rand_box(rng, [collar, (collar[0] + 1, collar[1] + 1, collar[2] + 1)], dims)
+    parent = DrillholeGroup.create(ws, name="dg") if via == "concat" else ws.root
+    hole = make_hole(ws, parent, rng, "h", collar, with_data)
+    if rng.random() < 0.5:
+        # a box placed on the path rather than on the collar: the path alone never selects a hole
+        path = [tuple(float(x) for x in row) for row in np.asarray(hole.locations).tolist()]
+        box, style = rand_box(rng, path + [collar], dims)
+        style += "-path"
+    else:
+        box, style = rand_box(rng, [collar, (collar[0] + 1, collar[1] + 1, collar[2] + 1)], dims)
     exp = [inside(collar, box, dims) != inverse]
     got = hole.mask_by_extent(np.array(box), inverse=inverse)
     judge_mask(rec, "Drillhole", got, exp, [collar], box, dims, inverse, style)
-    return ["Drillhole", style, dims, inverse]
+    if copy:
+        rec.see("copies")
+        rec.see("hole-copies")
+        before = hole_state(hole)
+        target = (DrillholeGroup if via == "concat" else ContainerGroup).create(ws, name="out")
+        new = hole.copy_from_extent(np.array(box), parent=target, inverse=inverse)
+        judge_hole_copy(rec, hole, new, before, collar, box, dims, inverse, style, via + ":" + with_data)
+    return ["Drillhole", style, dims, inverse, via, with_data]
 
 
 def grid_values(n):
@@ -453,9 +506,11 @@ def do_grid2d(case, rec, rng, ws, dims, inverse, copy):
 
 def do_group(case, rec, rng, ws, dims, inverse, copy):
     """Groups: copy by extent keeps exactly the children selections (a child with nothing selected is dropped)."""
-    from geoh5py.groups import ContainerGroup
+    from geoh5py.groups import ContainerGroup, DrillholeGroup
     from geoh5py.objects import Points
 
+    if rng.random() < 0.35:
+        return do_hole_group(case, rec, rng, ws, dims, inverse)
     g = ContainerGroup.create(ws, name="grp")
     all_pts, kids = [], []
     for k in range(rng.randint(1, 3)):
@@ -480,3 +535,41 @@ def do_group(case, rec, rng, ws, dims, inverse, copy):
                 got[c.name] = [tuple(x) for x in v.tolist()]
     rec.check("C13.copy-geom", got == want, op="copy_from_extent", cls="Group", attr=f"{dims}d{':inverse' if inverse else ''}", detail=f"group copy holds {got} expected {want}; box={box}")
     return ["Group", style, dims, inverse]
+
+
+def do_hole_group(case, rec, rng, ws, dims, inverse):
+    """A group of holes clipped by a box: exactly the holes whose collar qualifies, each whole."""
+    from geoh5py.groups import ContainerGroup, DrillholeGroup
+
+    via = rng.choice(["plain", "concat"])
+    g = (DrillholeGroup if via == "concat" else ContainerGroup).create(ws, name="wells")
+    with_data = rng.choice(["none", "depth", "interval", "both"])
+    holes, collars, seen = {}, {}, set()
+    for k in range(rng.randint(2, 4)):
+        collar = (float(rng.randint(0, 5)), float(rng.randint(0, 5)), float(rng.randint(0, 3)))
+        if collar in seen:
+            continue
+        seen.add(collar)
+        holes[f"w{k}"] = make_hole(ws, g, rng, f"w{k}", collar, with_data)
+        collars[f"w{k}"] = collar
+    pool = list(collars.values())
+    if rng.random() < 0.5:
+        for h in holes.values():
+            pool += [tuple(float(x) for x in row) for row in np.asarray(h.locations).tolist()]
+    box, style = rand_box(rng, pool, dims)
+    before = {n: hole_state(h) for n, h in holes.items()}
+    rec.see("cls:Group")
+    rec.see("copies")
+    rec.see("hole-copies")
+    new = g.copy_from_extent(np.array(box), inverse=inverse)
+    attr = f"holes:{via}:{with_data}:{dims}d{':inverse' if inverse else ''}"
+    must = {n for n, c in collars.items() if inside(c, box, dims) and not inverse}
+    may = {n for n, c in collars.items() if inside(c, box, dims) != inverse}
+    got = {} if new is None else {c.name: hole_state(c) for c in new.children if hasattr(c, "collar")}
+    rec.check("C13.copy-geom", must <= set(got) <= may, op="copy_from_extent", cls="Group", attr=attr, detail=f"group clip returned holes {sorted(got)}; collars {collars}; box={box} inverse={inverse}: required {sorted(must)}, allowed {sorted(may)}")
+    for n in set(got) & may:
+        rec.check("C13.copy-geom", (got[n]["collar"], got[n]["surveys"]) == (before[n]["collar"], before[n]["surveys"]), op="copy_from_extent", cls="Group", attr=attr + ":path", detail=f"hole {n} copied with {got[n]['collar']} {got[n]['surveys']} expected {before[n]['collar']} {before[n]['surveys']}")
+        rec.check("C13.copy-data", got[n]["data"] == before[n]["data"], op="copy_from_extent", cls="Group", attr=attr + ":data", detail=f"hole {n} copied with data {got[n]['data']} expected {before[n]['data']}")
+    for n, h in holes.items():
+        rec.check("C13.source-unchanged", hole_state(h) == before[n], op="copy_from_extent", cls="Group", attr=attr, detail=f"source hole {n} changed by the clip")
+    return ["Group", style, dims, inverse, "holes", via, with_data]
